@@ -20,6 +20,18 @@ def crc_body(msg, encode):
         "crc(frame) == remainder of the frame polynomial modulo 0x1FFF409"
 
 
+@harness("C01", inputs={"msg": HexStr((14, 28)), "other": HexStr((14, 28)), "first": Choice(False, True),
+                         "second": Choice(False, True), "same": Choice(False, True)},
+         functions=[P + "crc"], body_of=[P + "crc"])
+def crc_is_a_function_of_its_arguments(msg, other, first, second, same):
+    # frame condition: a call of crc leaves nothing behind (cache, shared buffer, module state) that changes a
+    # later call - on the same frame text in either mode, or on another frame.  Added after seed C01-5, a cached
+    # byte list that the encode path zeroed in place: every single call was right, the second one was not.
+    PC.crc(msg if same else other, first)
+    assert outcome(PC.crc, msg, second) == outcome(CS.crc, msg, second), \
+        "crc(frame) == remainder also after an earlier call of crc (same or other frame, either mode)"
+
+
 @harness("C01", inputs={"data": BinStr((32, 88)), "p1": BinStr(24), "p2": BinStr(24), "case1": BinStr((14, 28)),
                          "case2": BinStr((14, 28))})
 def crc_encode_depends_on_data_only(data, p1, p2, case1, case2):
